@@ -28,11 +28,11 @@ var (
 
 // base sets identifier bases at or around their wrap-around points.
 type base struct {
-	name    string
-	echoID  uint32 // allocator counter before the run (next id = +1)
-	ipid    uint32
-	isn     uint32
-	tcpSeq  *uint32
+	name   string
+	echoID uint32 // allocator counter before the run (next id = +1)
+	ipid   uint32
+	isn    uint32
+	tcpSeq *uint32
 }
 
 func u32(v uint32) *uint32 { return &v }
@@ -110,7 +110,7 @@ type form struct {
 	dest func(e *simEnv, p *refmatch.Probe) []byte
 }
 
-func anyV(refmatch.Variant) bool { return true }
+func anyV(refmatch.Variant) bool     { return true }
 func v4only(v refmatch.Variant) bool { return !v.V6 }
 
 func teForm(name, style string, opts int, qttl uint8, ck string, tos int, applies func(refmatch.Variant) bool) form {
@@ -192,8 +192,8 @@ func catalogue() []form {
 		}})
 	// TCP SYN destination forms
 	synOpts := map[string][]byte{
-		"plain":   nil,
-		"mss":     wirefmt.OptMSS(1400),
+		"plain":          nil,
+		"mss":            wirefmt.OptMSS(1400),
 		"mss-sack-ts-ws": append(append(append(append(wirefmt.OptMSS(1460), wirefmt.OptSackPerm()...), wirefmt.OptTS(777, 0)...), wirefmt.OptNop()...), wirefmt.OptWS(7)...),
 	}
 	for n, o := range synOpts {
